@@ -26,7 +26,16 @@ type spn struct {
 	hidden  bool
 	deleted bool
 	mtime   time.Time // latest claim date, zero if no claims
+	ctime   time.Time // PermanodeAnyTime: the startDate attribute when there is one, the modtime otherwise
 	noClaim bool
+}
+
+// the time a sort orders (and pages) by
+func (p *spn) sortTime(s search.SortType) time.Time {
+	if s == search.CreatedDesc {
+		return p.ctime
+	}
+	return p.mtime
 }
 
 type searchWorld struct {
@@ -72,6 +81,11 @@ func buildSearchWorld(c *ctx, w *world, n int, timeStyle string) *searchWorld {
 		}
 		t := pickTime()
 		p.mtime = t
+		p.ctime = t
+		if c.rng.Intn(3) == 0 { // a creation time of its own, before or after the modtime
+			p.ctime = pickTime()
+			must(iw.deliver(w.claim(0, schema.NewSetAttributeClaim(p.ref, "startDate", p.ctime.Format(time.RFC3339Nano)), t)))
+		}
 		tag := []string{"x", "y", "z"}[c.rng.Intn(3)]
 		p.tags = []string{tag}
 		must(iw.deliver(w.claim(0, schema.NewSetAttributeClaim(p.ref, "tag", tag), t)))
@@ -127,7 +141,7 @@ func (sw *searchWorld) byRef(r blob.Ref) *spn {
 }
 
 func runC09(c *ctx) {
-	c.rep.Rule = "worlds of 4-22 permanodes whose claim times are massively tied, pre-1970, sub-second, pre-1970 with tied sub-second fractions, or mixed, some deleted / hidden / without claims; permanode constraints (camliType permanode, skipHidden, tag equals); both continuable sorts; every page size 1..n+1 followed through its continuation tokens to exhaustion (watchdog on the number of pages); every pivot (matching, non-matching, deleted) x several limits for 'around'; " +
+	c.rep.Rule = "worlds of 4-22 permanodes (a third with a startDate attribute, so that creation time and modtime differ) whose claim times are massively tied, pre-1970, sub-second, pre-1970 with tied sub-second fractions, or mixed, some deleted / hidden / without claims; permanode constraints (camliType permanode, skipHidden, tag equals); both continuable sorts; every page size 1..n+1 followed through its continuation tokens to exhaustion (watchdog on the number of pages); every pivot (matching, non-matching, deleted) x several limits for 'around'; " +
 		"non-trivial = distinct case with at least two pages (paging) or a pivot that matches (around)"
 	w, err := newWorld()
 	if err != nil {
@@ -157,7 +171,7 @@ func runC09(c *ctx) {
 				}
 				item := func(r blob.Ref) string {
 					p := sw.byRef(r)
-					return fmt.Sprintf("(%s, %d%%N)", qz(p.mtime.UnixNano()), rank[r])
+					return fmt.Sprintf("(%s, %d%%N)", qz(p.sortTime(sortT).UnixNano()), rank[r])
 				}
 				var fullQ []string
 				var fullRefs []blob.Ref
@@ -168,7 +182,7 @@ func runC09(c *ctx) {
 				// SPEC on the unpaged list: ordered by (time desc, ref desc)
 				for i := 0; i+1 < len(fullRefs); i++ {
 					a, b := sw.byRef(fullRefs[i]), sw.byRef(fullRefs[i+1])
-					if a.mtime.Before(b.mtime) || (a.mtime.Equal(b.mtime) && a.ref.String() < b.ref.String()) {
+					if a.sortTime(sortT).Before(b.sortTime(sortT)) || (a.sortTime(sortT).Equal(b.sortTime(sortT)) && a.ref.String() < b.ref.String()) {
 						c.violation(len(c.casesBuf), "c09-full-order", fmt.Sprintf("%s %s sort %v: unpaged result out of order at %d", style, cs.name, sortT, i), nil)
 						break
 					}
@@ -220,7 +234,7 @@ func runC09(c *ctx) {
 						cl := "c09-paging"
 						neg := false
 						for _, r := range fullRefs {
-							if sw.byRef(r).mtime.UnixNano() < 0 {
+							if sw.byRef(r).sortTime(sortT).UnixNano() < 0 {
 								neg = true
 							}
 						}
